@@ -21,7 +21,7 @@ NOT_DECIDED = ["behaviour at chi2 exactly equal to the threshold (excluded by th
                "min(n, total) for ('N', n) relies on python slice semantics a[:n] for n > len(a) (language fact)"]
 ASSUMPTIONS = ["<= and < identified (no exact ties with the threshold)", "the record was ranked ascending (C04)"]
 TRUSTED = ["python ast", "sedlint E4/E5", "python slice semantics"]
-MIN = {'ALG-11': 8, 'PERM-2': 6, 'ALG-12': 1}
+MIN = {'ALG-11': 8, 'PERM-2': 6, 'ALG-12': 2}
 TECHNIQUE = 'static analysis: finite-domain specialisation of AST value numbering over the selector letters; coherence set of the prefix cut'
 
 VOCAB = {'av', 'sc', 'chi2', 'model_name', 'model_fluxes', 'model_id', 'number', 'valid'}
@@ -75,7 +75,9 @@ def make_info(repo, per_fit, shapes):
     info = Obj(ci, {})
     for k in per_fit:
         info.attrs[k] = symarr(k, shapes.get(k, (R,)))
-    info.attrs['source'] = Obj(repo.cls('source.source', 'Source'), {'_valid': symarr('valid', (W,), unit=num(1))})
+    src = Obj(repo.cls('source.source', 'Source'), {'_valid': None, '_flux': None, '_error': None})
+    Interp(repo).call(repo.func('source.source', 'Source.valid@setter'), [symarr('valid', (W,), unit=num(1))], selfv=src)     # through the real setter
+    info.attrs['source'] = src
     return info
 
 
@@ -107,11 +109,29 @@ def run(ctx):
     per_fit = [k for k in keys if k != 'source']
     shapes = {'model_fluxes': (R, W)}
     where = loc(keep)
-    # n_data
+    # n_data: the flags are assigned through the real setter, then n_data is asked for
+    ndg = repo.func('source.source', 'Source.n_data@getter')
     I = Interp(repo)
-    nd = I.call(repo.func('source.source', 'Source.n_data@getter'), [], selfv=Obj(repo.cls('source.source', 'Source'), {'_valid': symarr('valid', (W,), unit=num(1))}))
-    compare(ctx, 'ALG-12', 'n_data', loc(repo.func('source.source', 'Source.n_data@getter')), nd, n_data_ref(), (), vocab=VOCAB,
-            detail_ok='n_data == #(flag 1) + #(flag 4)')
+    src = Obj(repo.cls('source.source', 'Source'), {'_valid': None, '_flux': None, '_error': None})
+    V = symarr('valid', (W,), unit=num(1))
+    I.call(repo.func('source.source', 'Source.valid@setter'), [V], selfv=src)
+    nd = I.call(ndg, [], selfv=src)
+    compare(ctx, 'ALG-12', 'n_data', loc(ndg), nd, n_data_ref(), (), vocab=VOCAB, detail_ok='n_data == #(flag 1) + #(flag 4)')
+    # the source keeps the caller's flag array and hands the same array back (source.valid[j] = ... edits it in place):
+    # n_data has to describe the flags as they are when it is asked, not as they were when they were assigned
+    exposed = src.attrs.get('_valid') is V or I.call(repo.func('source.source', 'Source.valid@getter'), [], selfv=src) is src.attrs.get('_valid')
+    if exposed:
+        src.attrs['_valid'] = symarr('valid2', (W,), unit=num(1))
+        nd2 = I.call(ndg, [], selfv=src)
+        v2 = sym('valid2', W)
+        ref2 = sum_over(alg.eq(v2, 1), W) + sum_over(alg.eq(v2, 4), W)
+        if isinstance(nd2, Arr) and isinstance(nd, Arr) and nd2.poly == nd.poly and not (nd2.poly == ref2):
+            ctx.violation('ALG-12', 'n_data follows the flag array', loc(ndg), 'n_data is a value remembered from when the flags were assigned: after the flag array the source holds is edited in place '
+                          '(source.valid[j] = 0) it still counts the old flags', 'stale-n-data')
+        else:
+            compare(ctx, 'ALG-12', 'n_data follows the flag array', loc(ndg), nd2, ref2, (), vocab=VOCAB | {'valid2'}, detail_ok='computed from the flags the source holds when it is asked')
+    else:
+        ctx.ok('ALG-12', 'n_data follows the flag array', loc(ndg), 'the source keeps a private copy of the flags and hands out copies', nontrivial=False)
     for letter in ('A', 'N', 'C', 'D', 'E', 'F'):
         I = Interp(repo, KeepHooks(False))
         info = make_info(repo, per_fit, shapes)
@@ -171,6 +191,8 @@ def run(ctx):
 FI = 'sedfitter/fit_info.py'
 SO = 'sedfitter/source/source.py'
 MUST_FIRE = [
+    ('n_data remembered from the assignment of the flags', [(SO, "                    self._valid = value\n", "                    self._valid = value\n                    self._n_data = np.sum((value == 1) | (value == 4))\n"),
+                                                            (SO, "        return np.sum((self.valid == 1) | (self.valid == 4))", "        return self._n_data")]),
     ('D uses chi2[-1]', [(FI, "n_fits = np.sum(self.chi2 - self.chi2[0] <= number)", "n_fits = np.sum(self.chi2 - self.chi2[-1] <= number)")]),
     ('E uses len(valid)', [(FI, "n_fits = np.sum((self.chi2 / self.source.n_data) <= number)", "n_fits = np.sum((self.chi2 / len(self.source.valid)) <= number)")]),
     ('F without division', [(FI, "n_fits = np.sum((self.chi2 - self.chi2[0]) / self.source.n_data <= number)", "n_fits = np.sum((self.chi2 - self.chi2[0]) <= number)")]),
